@@ -313,8 +313,31 @@ func runC12(c *Ctx) {
 	// ---- C12.4
 	c.Rule("C12.4", "key agreement: every key passed to trMap.Insert/Find/Delete in package turn is base64.StdEncoding.EncodeToString(m.TransactionID[:]) of a *stun.Message m (the request in PerformTransaction, the decoded inbound message in handleSTUNMessage), or the trKey parameter of onRtxTimeout; the timer callback is invoked with t.Key, and Transaction.Key is assigned from TransactionConfig.Key which PerformTransaction sets to that encoding", 5)
 	{
-		isEncodedID := func(v ssa.Value) bool {
+		var isEncodedID func(v ssa.Value) bool
+		isEncodedID = func(v ssa.Value) bool {
 			call, _ := callOf(w.resolveLoad(v))
+			// a one-line key helper of the module: key(id [12]byte) = base64(id[:]) of its
+			// parameter, called with the message's TransactionID
+			if call != nil {
+				if h := call.Call.StaticCallee(); h != nil && w.IsMod[h] && len(h.Blocks) == 1 && len(h.Params) == 1 && len(call.Call.Args) == 1 {
+					if rets := returnsOf(h); len(rets) == 1 && len(rets[0].Results) == 1 {
+						if ec, _ := callOf(rets[0].Results[0]); ec != nil && ec.Call.StaticCallee() != nil && strings.HasSuffix(ec.Call.StaticCallee().String(), "base64.Encoding).EncodeToString") {
+							if g := globalLoad(ec.Call.Args[0]); g != nil && g.Name() == "StdEncoding" {
+								if sl, ok := ec.Call.Args[1].(*ssa.Slice); ok {
+									if al, isAl := sl.X.(*ssa.Alloc); isAl {
+										// the by-value array parameter is spilled into a local
+										if ss := w.stores[w.locKey(al)]; len(ss) == 1 && ss[0].Val == ssa.Value(h.Params[0]) {
+											if _, f, isL := fieldLoad(w.resolveLoad(call.Call.Args[0])); isL && f.Name() == "TransactionID" {
+												return true
+											}
+										}
+									}
+								}
+							}
+						}
+					}
+				}
+			}
 			if call == nil || call.Call.StaticCallee() == nil || !strings.HasSuffix(call.Call.StaticCallee().String(), "base64.Encoding).EncodeToString") {
 				return false
 			}
